@@ -478,6 +478,12 @@ theorem handlers_respect_auth_spec :
        | some k => k.authenticating || (k == .raw && Gen.rawModelled.contains om)
        | none => false) = true := by decide
 
+/-- no shipped overlay class replaces a step of the receive / send path (`_verify_signature`, `_ez_unpack_auth`,
+    `_ez_pack`, `ezr_pack`, `on_packet`, `add_message_handler`) by a definition of its own: the wrapper theorems above
+    are about the definitions in lazy_community.py / community.py, and they are what every overlay of the table runs
+    (read from the live classes: `cls.<name> is Base.<name>`, and nothing of that name on the instance) -/
+theorem no_overlay_overrides_the_receive_path : ∀ o ∈ Gen.overlays, o.overrides = [] := by decide
+
 /-- every registered handler of every shipped overlay has been reviewed: it is either in the authenticated list or in
     the list of ids that are unauthenticated by protocol design — never both, never neither -/
 theorem every_handler_reviewed :
